@@ -36,6 +36,7 @@ type Op struct {
 	HNested bool // call back to the caller before returning
 	// results
 	Issued    bool
+	IssuedAt  int
 	Done      bool
 	DoneAt    int
 	OK        bool
@@ -264,6 +265,7 @@ func (op *Op) settings() []erpc.MessageSetting {
 func (e *Env) Issue(sess erpc.Session, rt Routes, op *Op, ch chan erpc.CallCmd) {
 	simrt.Yield()
 	op.Issued = true
+	op.IssuedAt = e.Obs.step()
 	var arg, res interface{}
 	var method string
 	switch op.Route {
